@@ -459,7 +459,17 @@ def build_class(prog, rec, W, decorated=True):
     else:
         ns['execute'] = R.operation(metadata_extractor=ex)(run) if decorated else run
     name = prog.get('class_name') or ('Op%d' % next(_counter))
-    cls = type(name, (object,), ns)
+    bases_ = (object,)
+    if decorated and prog.get('base_params') is not None:
+        # the operation class extends another operation class of the service that was configured (earlier) with
+        # recording parameters of its own; each class is recorded with the parameters IT was given
+        from playback.tape_recorder import RecordingParameters
+        configured_base = type(name + 'Base', (object,), {})
+        configured_base.__module__ = CLASSES_MODULE
+        setattr(_mod, name + 'Base', configured_base)
+        R.recording_params(RecordingParameters(**prog['base_params']))(configured_base)
+        bases_ = (configured_base,)
+    cls = type(name, bases_, ns)
     cls.__module__ = CLASSES_MODULE
     setattr(_mod, name, cls)
     if decorated and (prog.get('params') or prog.get('params_fault')):
@@ -540,7 +550,7 @@ def build_class(prog, rec, W, decorated=True):
 
 def forget_class(cls):
     base = getattr(cls, '_verif_base', None)
-    for n in (cls.__name__, cls.__name__ + 'Inner', cls.__name__ + 'Inner2') + (
+    for n in (cls.__name__, cls.__name__ + 'Inner', cls.__name__ + 'Inner2', cls.__name__ + 'Base') + (
             (base.__name__, base.__name__ + 'Inner', base.__name__ + 'Inner2') if base else ()):
         try:
             delattr(_mod, n)
